@@ -546,6 +546,14 @@ def f1_known(run, c, what):
                         "element of 'inner items<>' the next element is read 4 bytes early)")
 
 
+def f1_zero_known(run):
+    run.known_hit("F1", "F1 (consequence) an array element whose wire_size() is short (inline variable-length "
+                        "opaque, finding F1) is stepped over by too few bytes -- zero for an empty payload -- so a "
+                        "count field alone makes the decoder produce and store elements: struct z { opaque a<>; }; "
+                        "struct zs { z items<>; } on 00 00 08 00 + 8 zero bytes yields 2048 elements (65536 bytes); "
+                        "a count of 2^28 and more exhausts a 4 GiB address space (the process aborts)")
+
+
 def sup_coverage(run, C):
     """how many specifications of the corpus satisfy the (decidable) hypothesis of the C01 / C02
     theorems: sup_b evaluated in Coq on the dumped real ASTs"""
@@ -753,12 +761,16 @@ def check_c04(run):
     corpus_ties(run, C, need=("k2", "k3"))
     sup_coverage(run, C)
     term_coverage(run, C)
+    k3bad = set(C["k3"]["dis"])
     for n, c in enumerate(C["cases"]):
         l = c["real"]
         run.case((c["spec"], c["type"], c["input"]),
                  {"type": c["type"], "kind": c["kind"], "input": c["input"].hex()[:64], "observed": xv.strip_alloc(l)[:100]}
                  if c["kind"] in ("word", "prefix", "hugecount", "random") else None)
         if l.startswith("ABORT") or "PANIC" in l:
+            if l.startswith("ABORT") and "alloc" in l and spec_f1(C, c["spec"]) and n not in k3bad:
+                f1_zero_known(run)
+                continue
             run.violation("decoder of %s %s on hostile bytes" % (c["type"], "aborts the process" if l.startswith("ABORT") else "panics"),
                           case_replay(C, c))
     # deep optional chains: native recursion (finding F9)
@@ -956,7 +968,10 @@ def check_c09(run):
         l = c["real"]
         if l.startswith("ABORT"):
             if "alloc" in l:
-                run.violation("a length field makes the decoder request memory the allocator cannot provide", case_replay(C, c))
+                if spec_f1(C, c["spec"]) and n not in k3bad:
+                    f1_zero_known(run)
+                else:
+                    run.violation("a length field makes the decoder request memory the allocator cannot provide", case_replay(C, c))
             continue
         if C["specs"][c["spec"]][0] == "fixed_validonly":
             continue    # zero-wire-size elements: a count is then a legitimate encoding of that many values
@@ -968,10 +983,7 @@ def check_c09(run):
                 if cx is None:
                     cx = f1cx[c["spec"]] = valgen.spec_has_f1_array(valgen.Ctx(lookup[c["spec"]]["ast"]))
                 if cx and n not in k3bad:
-                    run.known_hit("F1", "F1 (consequence) an array element whose wire_size() is short (inline variable-length "
-                                        "opaque, finding F1) is stepped over by too few bytes -- zero for an empty payload -- so a "
-                                        "count field alone makes the decoder produce and store elements: struct z { opaque a<>; }; "
-                                        "struct zs { z items<>; } on 00 00 08 00 + 8 zero bytes yields 2048 elements (65536 bytes)")
+                    f1_zero_known(run)
                     run.count("F1_array_overallocation")
                     continue
                 if c["spec"] not in f15cx:
